@@ -552,6 +552,9 @@ pub fn run(scn: &PnmScenario, record: bool) -> RunResult {
             // only what was flushed is on the disk; what the sink merely accepted is lost
             {
                 let mut c = core.borrow_mut();
+                if c.bypassed {
+                    rr.probe("path wrapper went around the File seam: real file used as the disk");
+                }
                 if !c.pending.is_empty() {
                     log.borrow_mut().ledger.add(K::unflushed_bytes_lost, c.pending.len() as u64);
                     rr.probe("bytes accepted by the sink but never flushed were lost");
